@@ -751,3 +751,63 @@ func ruleModuleContextAlwaysSet(p *Program, r *Report) {
 }
 
 func init() { register("C15", Rule{"R15f", ruleModuleContextAlwaysSet}) }
+
+// R15g: what is archived is what was read.  A recorder stores the bytes of a source file so that the bundle run reads
+// the same content the source run read.  The data argument of every archive write in the recorders must be bytes
+// that came straight from the source file system (afero.ReadFile's result) or a []byte parameter handed in by the
+// importer that read them — never bytes constructed in the recorder (a summary, a re-serialisation).
+func ruleArchivedBytesAreSourceBytes(p *Program, r *Report) {
+	r.Begin("R15g", "archived bytes = source bytes: the content argument of every ctxfs.ZipCreate call in package syntax (except the bundle's own configuration file) is, unchanged, the result of reading the source file system or a []byte parameter of the recorder — not bytes built in place, so that a file imported as data reads the same from the bundle as from the source tree", 4)
+	defer r.End()
+	zc := p.Func("pkg/ctxfs", "ZipCreate")
+	if zc == nil {
+		r.Undecided("anchor", "ctxfs.ZipCreate not found", 0)
+		return
+	}
+	n := 0
+	for _, fn := range p.RepoFns {
+		if PkgPathOf(fn) != Mod+"/syntax" {
+			continue
+		}
+		for i, c := range callsTo(fn, zc) {
+			if len(c.Call.Args) < 4 {
+				continue
+			}
+			data := c.Call.Args[3]
+			n++
+			r.Fn(FnName(fn))
+			key := fmt.Sprintf("content@%s~%d", FnName(fn), i+1)
+			// the configuration file is generated by design: its content derives from bundleConfig.String()
+			if DependsOn(data, func(x ssa.Value) bool {
+				cc, ok := x.(*ssa.Call)
+				return ok && cc.Call.StaticCallee() != nil && strings.Contains(FnName(cc.Call.StaticCallee()), "bundleConfig") && cc.Call.StaticCallee().Name() == "String"
+			}) {
+				r.OK(key, "the bundle's generated configuration file", c.Pos())
+				continue
+			}
+			ok := false
+			switch x := data.(type) {
+			case *ssa.Parameter:
+				ok = true
+			case *ssa.Extract:
+				if rc, isCall := x.Tuple.(*ssa.Call); isCall && x.Index == 0 {
+					if g := rc.Call.StaticCallee(); g != nil && (strings.HasSuffix(g.String(), "afero.ReadFile") || strings.HasSuffix(g.String(), "io.ReadAll") || strings.HasSuffix(g.String(), "ioutil.ReadAll")) {
+						ok = true
+					}
+				}
+			case *ssa.UnOp:
+				if al, isAl := x.X.(*ssa.Alloc); isAl {
+					if _, isP := paramCell(al); isP {
+						ok = true
+					}
+				}
+			}
+			r.Check(ok, key, "bytes read from the source, unchanged", fmt.Sprintf("%s archives content that is not the bytes read from the source file system (nor a []byte handed in by the importer): a script that imports that file as data gets different bytes from the bundle than from the source tree", FnName(fn)), c.Pos())
+		}
+	}
+	if n < 4 {
+		r.Undecided("sites", fmt.Sprintf("only %d archive writes found in package syntax", n), 0)
+	}
+}
+
+func init() { register("C15", Rule{"R15g", ruleArchivedBytesAreSourceBytes}) }
